@@ -38,12 +38,15 @@ impl CostModel for RawConnector {
         // model hypothesis: stored costs are small enough that the lane sum cannot overflow 32 bits
         &&& 0 <= self.cost_m() && self.scorer.costs_within(self.cost_m()) && w * 8 * self.cost_m() <= i32::MAX as int
     }
+    open spec fn conn_shape(&self) -> bool { self.conn_wf() }
     open spec fn spec_num_left(&self) -> int { self.left_feat_ids.len() as int / self.feat_template_size as int }
     open spec fn spec_num_right(&self) -> int { self.right_feat_ids.len() as int / self.feat_template_size as int }
     open spec fn spec_cost(&self, right_id: u16, left_id: u16) -> int {
         self.scorer.rows_sum(self.spec_right_row(right_id as int), self.spec_left_row(left_id as int), self.feat_template_size as int)
     }
     open spec fn spec_cost_bound(&self) -> int { self.feat_template_size as int * 8 * self.cost_m() }
+    proof fn lemma_shape_of_wf(&self) {}
+    proof fn lemma_wf_of_shape(&self) {}
     proof fn lemma_conn_wf(&self) {
         let w = self.feat_template_size as int;
         let m = self.cost_m();
